@@ -3,7 +3,7 @@
 From Coq Require Import List Ascii NArith ZArith Bool Arith Lia.
 From GM Require Import Base.Res Base.StrGro Gen.SrcConsts Model.GroCodec Model.GroFile
   Proofs.GroStr Proofs.GroCodecP Proofs.GroReadP Proofs.GroWriteP Proofs.GroMain Proofs.GroPrefixP Proofs.GroFailClose
-  Gen.GroKernelsGen Proofs.GroKernelsGenEq.
+  Gen.GroKernelsGen Proofs.GroKernelsGenEq Gen.AtomLineGen Proofs.AtomLineGenEq.
 Import ListNotations.
 
 (* Crash points at operation granularity.  The operations of a run are
@@ -108,6 +108,15 @@ Theorem C14_model_is_source_numbers : forall (fmt : nat * bool) (line : bytes),
    Ok (mkratom (fst nums) (strip_py (firstn 5 (skipn 5 l))) (strip_py (firstn 5 (skipn 10 l))) (snd nums) vals)).
 Proof. exact parse_atomline_body_uses_gen. Qed.
 Print Assumptions C14_model_is_source_numbers.
+
+(* the whole line parser of the reader, GroFile.parse_atomline, as the source says it now (harness/pytrans_atomline.py ->
+   Gen/AtomLineGen.v, for a given format of non-negative width): final newline, length test, number fields, names from
+   columns 5-10 and 10-15, three or six fixed-width floats - equal to the model's parse_atomline on every line *)
+Theorem C14_model_is_source_atomline : forall (line : bytes) (w d : nat) (vel : bool),
+  parse_atomline_gen line (w, d, vel) =
+  rmap (fun a : ratom => (a_resnum a, a_resname a, a_aname a, a_anum a, a_vals a)) (parse_atomline (w, vel) line).
+Proof. exact parse_atomline_gen_eq. Qed.
+Print Assumptions C14_model_is_source_atomline.
 
 (* ---------------------------------------------------------------- non-vacuity *)
 Local Open Scope char_scope.
